@@ -138,6 +138,13 @@ def check_explicit(case, ctx: Ctx):
             return physt.h2(arr_[:, 0].tolist(), arr_[:, 1].tolist(), bins_, **kwargs)
         if entry == "h3_cols":
             return physt.h3([arr_[:, 0], arr_[:, 1], arr_[:, 2]], bins_, **kwargs)
+        if entry == "h3_col_lists":
+            # the three components as plain Python lists / a tuple of lists
+            return physt.h3((arr_[:, 0].tolist(), arr_[:, 1].tolist(), arr_[:, 2].tolist()), bins_, **kwargs)
+        if entry == "h3_col_series":
+            import pandas as pd
+
+            return physt.h3([pd.Series(arr_[:, 0], name="a"), pd.Series(arr_[:, 1], name="b"), pd.Series(arr_[:, 2], name="c")], bins_, **kwargs)
         if entry == "h3":
             return physt.h3(arr_, bins_, **kwargs)
         raise AssertionError(entry)
@@ -240,9 +247,9 @@ def explicit_cases(draw, tier="quick"):
         wdtype = draw(st.sampled_from(["int8", "uint8", "int16", "int32", "uint16"]))
         heavy = {"int8": [100, 120, 7, 0], "uint8": [200, 255, 16, 0], "int16": [30000, 200, 3, 0], "int32": [100000, 2 ** 30, 5, 0], "uint16": [60000, 300, 1, 0]}[wdtype]
         weights = [draw(st.sampled_from(heavy)) for _ in weights]
-    entries = {2: ["h", "h", "h_lists", "h2", "h2", "h2_lists"], 3: ["h", "h_lists", "h3", "h3_cols", "h3_cols"], 4: ["h", "h_lists"]}[d]
+    entries = {2: ["h", "h", "h_lists", "h2", "h2", "h2_lists"], 3: ["h", "h_lists", "h3", "h3_cols", "h3_cols", "h3_col_lists", "h3_col_series"], 4: ["h", "h_lists"]}[d]
     entry = draw(st.sampled_from(entries))
-    if entry == "h3_cols" and n == 0:
+    if entry in ("h3_cols", "h3_col_lists", "h3_col_series") and n == 0:
         entry = "h3"
     if entry == "h_lists" and n == 0:
         entry = "h"  # an empty nested list cannot express the shape (0, d)
